@@ -24,6 +24,7 @@ type Profile struct {
 	PRollout, PExperiment                     float64
 	PMalformed                                float64
 	PDocNoise                                 float64
+	PSingleMal                                float64 // cases that are one well-formed flag with exactly one malformation, certainly reached
 	PZeroAge                                  float64 // the context certainly has "age": +0 or -0
 	PDateAttr                                 float64 // the context certainly has a "date" attribute
 	PShuffle                                  float64 // key order of every object shuffled (semantics-preserving)
@@ -956,6 +957,113 @@ func (w *World) shuffleKeys(doc *J, depth int) {
 	}
 }
 
+
+// genSingleMalformation: a small well-formed configuration in which exactly one thing is wrong, placed where this
+// context's evaluation certainly reaches it (in the evaluated flag, in its prerequisite, or in the segment its rule tests).
+// The dense malformed profile rarely gets past its first problem; this stream reaches every error site.
+func (w *World) genSingleMalformation(c *EvalCase) {
+	r := w.r
+	kind := w.ctx.Singles[r.Intn(len(w.ctx.Singles))].Kind
+	ck := ""
+	if kind != "user" || r.P(0.5) {
+		ck = kind
+	}
+	mkFlag := func(key string) *J {
+		return JObj(KV{"key", JStr(key)}, KV{"on", JBool(true)}, KV{"prerequisites", JArr()}, KV{"targets", JArr()}, KV{"contextTargets", JArr()},
+			KV{"rules", JArr()}, KV{"fallthrough", JObj(KV{"variation", JInt(0)})}, KV{"offVariation", JInt(1)},
+			KV{"variations", JArr(JStr("v0"), JStr("v1"), JStr("v2"))}, KV{"salt", JStr("salt")}, KV{"version", JInt(1)})
+	}
+	rollout := func(bucketBy string, withKind bool, n int) *J {
+		ro := JObj()
+		if withKind {
+			k := ck
+			if k == "" {
+				k = "user"
+			}
+			ro.Set("contextKind", JStr(k))
+		}
+		vs := &J{K: 'a', A: []*J{}}
+		for i := 0; i < n; i++ {
+			vs.A = append(vs.A, JObj(KV{"variation", JInt(int64(i % 3))}, KV{"weight", JInt(int64(100000 / n))}))
+		}
+		ro.Set("variations", vs)
+		if bucketBy != "" {
+			ro.Set("bucketBy", JStr(bucketBy))
+		}
+		return ro
+	}
+	always := func() *J { // a clause that matches every context of the chosen kind
+		cl := JObj(KV{"attribute", JStr("key")}, KV{"op", JStr("in")}, KV{"values", JArr(JStr("\x00never"))}, KV{"negate", JBool(true)})
+		if ck != "" {
+			cl.Set("contextKind", JStr(ck))
+		}
+		return cl
+	}
+	badRef := r.Pick([]string{"//", "/a~2", "/", "/a//b", "/a~"})
+	top := mkFlag("f0")
+	target := top // the flag that carries the malformation: the evaluated flag or its prerequisite
+	where := r.Intn(3)
+	if where == 1 {
+		pf := mkFlag("f1")
+		top.Replace("prerequisites", JArr(JObj(KV{"key", JStr("f1")}, KV{"variation", JInt(0)})))
+		c.Flags = append(c.Flags, Item{Key: "f1", Form: 1, Doc: pf})
+		target = pf
+	}
+	rule := func(vorr KV, clauses ...*J) *J {
+		return JObj(KV{"id", JStr("r")}, vorr, KV{"clauses", JArr(clauses...)}, KV{"trackEvents", JBool(false)})
+	}
+	switch r.Intn(12) {
+	case 0: // variation index out of range: fallthrough
+		target.Replace("fallthrough", JObj(KV{"variation", JInt(r.Pick2([]int64{-1, 3, 99}))}))
+	case 1: // ... in a matching rule
+		target.Replace("rules", JArr(rule(KV{"variation", JInt(r.Pick2([]int64{-1, 3, 99}))}, always())))
+	case 2: // ... off variation of a flag that is off
+		target.Replace("on", JBool(false))
+		target.Replace("offVariation", JInt(r.Pick2([]int64{-1, 3, 99})))
+	case 3: // rollout without buckets
+		target.Replace("fallthrough", JObj(KV{"rollout", rollout("", r.P(0.5), 0)}))
+	case 4: // invalid bucket-by reference in the fallthrough rollout (only a reference, i.e. with a context kind, can be invalid)
+		target.Replace("fallthrough", JObj(KV{"rollout", rollout(badRef, true, 2)}))
+	case 5: // ... in a matching rule's rollout
+		target.Replace("rules", JArr(rule(KV{"rollout", rollout(badRef, true, 3)}, always())))
+	case 6: // clause with an invalid attribute reference
+		cl := JObj(KV{"contextKind", JStr(kind)}, KV{"attribute", JStr(badRef)}, KV{"op", JStr("in")}, KV{"values", JArr(JStr("a"))}, KV{"negate", JBool(r.P(0.5))})
+		target.Replace("rules", JArr(rule(KV{"variation", JInt(0)}, cl)))
+	case 7: // clause with no attribute at all
+		cl := JObj(KV{"op", JStr("in")}, KV{"values", JArr(JStr("a"))}, KV{"negate", JBool(false)})
+		target.Replace("rules", JArr(rule(KV{"variation", JInt(0)}, cl)))
+	case 8: // prerequisite cycle back to the carrying flag
+		key := target.Get("key").S
+		other := "f9"
+		c.Flags = append(c.Flags, Item{Key: other, Form: 1, Doc: func() *J {
+			g := mkFlag(other)
+			g.Replace("prerequisites", JArr(JObj(KV{"key", JStr(key)}, KV{"variation", JInt(0)})))
+			return g
+		}()})
+		target.Replace("prerequisites", JArr(JObj(KV{"key", JStr(other)}, KV{"variation", JInt(0)})))
+	case 9, 10, 11: // a problem inside the segment that a rule of the carrying flag tests
+		seg := JObj(KV{"key", JStr("s0")}, KV{"included", JArr()}, KV{"excluded", JArr()}, KV{"salt", JStr("x")}, KV{"version", JInt(1)})
+		switch r.Intn(3) {
+		case 0: // segment cycle
+			seg.Set("rules", JArr(JObj(KV{"id", JStr("sr")}, KV{"clauses", JArr(JObj(KV{"attribute", JStr("")}, KV{"op", JStr("segmentMatch")},
+				KV{"values", JArr(JStr("s0"))}, KV{"negate", JBool(false)}))})))
+		case 1: // invalid attribute reference in a segment rule clause
+			seg.Set("rules", JArr(JObj(KV{"id", JStr("sr")}, KV{"clauses", JArr(JObj(KV{"contextKind", JStr(kind)}, KV{"attribute", JStr(badRef)},
+				KV{"op", JStr("in")}, KV{"values", JArr(JStr("a"))}, KV{"negate", JBool(false)}))})))
+		default: // invalid bucket-by reference in a weighted segment rule
+			seg.Set("rules", JArr(JObj(KV{"id", JStr("sr")}, KV{"clauses", JArr()}, KV{"weight", JInt(50000)}, KV{"bucketBy", JStr(badRef)},
+				KV{"rolloutContextKind", JStr(kind)})))
+		}
+		c.Segs = append(c.Segs, Item{Key: "s0", Form: 1, Doc: seg})
+		target.Replace("rules", JArr(rule(KV{"variation", JInt(0)}, JObj(KV{"attribute", JStr("")}, KV{"op", JStr("segmentMatch")},
+			KV{"values", JArr(JStr("s0"))}, KV{"negate", JBool(false)}))))
+	}
+	c.Top = Item{Key: "f0", Form: []int{1, 1, 0, 4}[r.Intn(4)], Doc: top}
+	if r.P(0.6) {
+		c.Flags = append(c.Flags, Item{Key: "f0", Form: c.Top.Form, Doc: top.Clone()})
+	}
+}
+
 // GenEval produces one evaluation case.
 func GenEval(r *Rng, p *Profile) *EvalCase {
 	w := &World{r: r, p: p}
@@ -965,6 +1073,10 @@ func GenEval(r *Rng, p *Profile) *EvalCase {
 	c.Logger = r.P(p.PLoggerOpt)
 	c.NilLoggerOption = !c.Logger && r.P(0.5)
 	c.Recorder = r.P(p.PRecorderOpt)
+	if r.P(p.PSingleMal) && w.ctx.Invalid == 0 {
+		w.genSingleMalformation(c)
+		return c
+	}
 	form := func() int {
 		if r.P(p.PForm0) {
 			return 0
